@@ -534,28 +534,64 @@ def plan_inode(beh, counts):
     return good[len(good) // 2]
 
 
-def run_behaviour(binary, beh, conc, allow_mount=True):
-    """Returns dict(final=observation, after_repeat=..., after_restart=..., trace=[...]) or raises Skip / Infra."""
+def derived_steps(vL, vM):
+    """the steps DeleteSegmentData / DeleteMetricsSegmentData take for these victims, per-victim loops in id order
+    (what Gen_Retention emits with DetOrder) up to the last point that can be cut without a hook"""
+    st = []
+    if vL:
+        st += [{"a": "files", "s": i} for i in sorted(vL)] + [{"a": "mem", "s": i} for i in sorted(vL)]
+        st += [{"a": "pqmeta"}, {"a": "segmeta"}]
+    st += [{"a": "m_mem", "s": i} for i in sorted(vM)]
+    return st
+
+
+def real_victims(ref):
+    """what the REAL uninterrupted pass deleted in the reference run of the same scenario"""
+    segs = ref["final"]["segs"]
+    gone = sorted(i for i, s in segs.items() if not s["files"])
+    return gone
+
+
+def run_behaviour(binary, beh, conc, allow_mount=True, victims=None):
+    """Returns dict(final=observation, after_repeat=..., after_restart=..., trace=[...]) or raises Skip / Infra.
+    victims: ids the real uninterrupted pass deleted (reference run); the interrupted prefix is taken over these
+    (identical to the spec's steps when the real selection equals the spec's)."""
     sc = Scenario(binary, beh, conc, allow_mount)
     try:
+        steps = beh["steps"]
+        crash_idx = [k for k, st in enumerate(steps) if st["a"] == "crash"]
+        pre, own = [], False
+        if crash_idx:
+            pre = steps[1:crash_idx[0]]
+            mv = sorted(steps[0]["vL"] + steps[0]["vM"])
+            if victims is not None and sorted(victims) != mv:
+                if beh["kind"] == "inode":
+                    raise Skip("selection-differs-from-model")
+                own = True
+                vL = [i for i in victims if beh["segs"][i - 1]["kind"] == "log"]
+                vM = [i for i in victims if beh["segs"][i - 1]["kind"] == "met"]
+                ds = derived_steps(vL, vM)
+                if len(pre) > len(ds):
+                    raise Skip("cut-inside-RemoveMetricsSegments")
+                pre = ds[:len(pre)]
+            else:
+                vL = steps[0]["vL"]
         sc.setup_dir()
         sc.build()
-        pre = sc.observe()
-        bad = [i for i, s in pre["segs"].items() if not (s["files"] and s["listed"] and s["found"] == s["of"])]
-        if bad or pre["open_found"] != pre["open_of"]:
-            raise vlib.Infra("scenario not fully searchable before the pass (not a retention verdict): %s" % json.dumps(pre)[:600])
+        pre_obs = sc.observe()
+        bad = [i for i, s in pre_obs["segs"].items() if not (s["files"] and s["listed"] and s["found"] == s["of"])]
+        if bad or pre_obs["open_found"] != pre_obs["open_of"]:
+            raise vlib.Infra("scenario not fully searchable before the pass (not a retention verdict): %s" % json.dumps(pre_obs)[:600])
         if sc.kind == "inode":
             counts = {i: sc.dr.ok("ret_inodes", dir=v["dir"]) for i, v in sc.seg.items()}
             free1, free2 = plan_inode(beh, counts)
             sc.cur_free = free1
             sc.trace.append({"inode_counts": counts, "to_free_first": free1, "to_free_after_interrupt": free2})
-        steps = beh["steps"]
-        crash_idx = [k for k, st in enumerate(steps) if st["a"] == "crash"]
         if crash_idx:
-            sc.cur_vL = steps[0]["vL"]
+            sc.cur_vL = vL
             if sc.kind == "inode":
                 sc.adjust_fill()
-            for st in steps[1:crash_idx[0]]:
+            for st in pre:
                 sc.step(st)
             sc.stop()                      # the process ends here: whatever was volatile is lost
             sc.trace.append({"crash": True})
@@ -563,7 +599,7 @@ def run_behaviour(binary, beh, conc, allow_mount=True):
             if sc.kind == "inode":
                 sc.cur_free = free2
         sc.run_pass()
-        res = {"final": settle(sc)}
+        res = {"final": settle(sc), "own_steps": own}
         # plain repetition of the completed pass
         if sc.kind == "inode":
             # the next tick sees the usage the first pass left behind
@@ -586,8 +622,16 @@ def run_behaviour(binary, beh, conc, allow_mount=True):
         sc.cleanup()
 
 
+def classify(s):
+    """(alive, gone) of one observed segment: alive = directory + listed + every event returned by search and counted
+    by stats; gone = no directory, not listed, not in the in-memory metadata, nothing returned, not in an empty-PQ meta"""
+    alive = s["files"] and s["listed"] and s["found"] == s["of"] and s["count"] == s["of"]
+    gone = (not s["files"]) and (not s["listed"]) and (not s["mem"]) and s["found"] == 0 and s["count"] == 0 and not s["pq"]
+    return alive, gone
+
+
 def obs_key(o):
-    return json.dumps({"segs": {str(i): [s["files"], s["listed"], s["found"], s["count"], s["pq"]] for i, s in o["segs"].items()},
+    return json.dumps({"segs": {str(i): [s["files"], s["listed"], s["mem"], s["found"], s["count"], s["pq"]] for i, s in o["segs"].items()},
                        "open": [o["open_found"], o["open_count"]]}, sort_keys=True)
 
 
@@ -595,8 +639,7 @@ def problems(sc, o):
     """observations that would be reported: used to decide whether to wait for the asynchronous loaders"""
     bad = 0
     for i, s in o["segs"].items():
-        alive = s["files"] and s["listed"] and s["found"] == s["of"] and s["count"] == s["of"]
-        gone = (not s["files"]) and (not s["listed"]) and s["found"] == 0 and s["count"] == 0 and not s["pq"]
+        alive, gone = classify(s)
         if not (alive or gone):
             bad += 1
     if o["open_found"] != o["open_of"] or o["open_count"] != o["open_of"]:
@@ -635,8 +678,7 @@ def judge(beh, res, ref_final):
     for i, s in sorted(o["segs"].items()):
         k = segs[i - 1]["kind"]
         kn = "log" if k == "log" else "metrics"
-        alive = s["files"] and s["listed"] and s["found"] == s["of"] and s["count"] == s["of"]
-        gone = (not s["files"]) and (not s["listed"]) and s["found"] == 0 and s["count"] == 0 and not s["pq"]
+        alive, gone = classify(s)
         state[i] = "alive" if alive else "gone" if gone else "mixed"
         if alive or gone:
             continue
@@ -655,6 +697,10 @@ def judge(beh, res, ref_final):
         elif (not s["listed"]) and (not s["files"]) and (s["found"] or s["count"]):
             out.append(("C14:%s:deleted-%s-data-still-returned-by-search%s" % (pn, kn, suffix),
                         "segment %d (%s) is deleted but search still returns %d events (stats count %s)" % (i, kn, s["found"], s["count"])))
+        elif (not s["listed"]) and (not s["files"]) and s["mem"]:
+            out.append(("C14:%s:deleted-%s-segment-still-in-memory-metadata%s" % (pn, kn, suffix),
+                        "segment %d (%s): directory and %s entry are gone but the in-memory segment metadata (what queries walk) "
+                        "still holds its key" % (i, kn, meta)))
         elif s["pq"] and data_gone:
             out.append(("C14:%s:empty-pq-meta-lists-deleted-segment%s" % (pn, suffix),
                         "segment %d is deleted (directory, segmeta.json, search) but an empty-PQ meta file still lists its key" % i))
@@ -730,8 +776,7 @@ def _cut(beh):
 def _states(o):
     st = {}
     for i, s in o["segs"].items():
-        alive = s["files"] and s["listed"] and s["found"] == s["of"] and s["count"] == s["of"]
-        gone = (not s["files"]) and (not s["listed"]) and s["found"] == 0 and s["count"] == 0 and not s["pq"]
+        alive, gone = classify(s)
         st[i] = "alive" if alive else "gone" if gone else "mixed"
     return st
 
@@ -868,21 +913,35 @@ def run(chk):
     else:
         chk.cov["inode_pass"] = "SKIPPED: mounting a tmpfs is not permitted here"
 
-    tasks = []
-    for sid, base, crs in plan:
-        for b in base + crs:
-            tasks.append((sid, b, chk.seed * 100003 + (hash_str(sid) % 100000)))
-    # long scenarios first
-    tasks.sort(key=lambda t: (0 if t[1].get("pq_scenario") else 1 if has_met(t[1]) else 2))
+    def seed_of(sid):
+        return chk.seed * 100003 + (hash_str(sid) % 100000)
+
+    def order(ts):   # long scenarios first
+        return sorted(ts, key=lambda t: (0 if t[1].get("pq_scenario") else 1 if has_met(t[1]) else 2))
 
     def work(t):
-        sid, b, seed = t
+        sid, b, seed, victims = t
         conc = concretise(b, seed)
         try:
-            return run_behaviour(binary, b, conc, mount_ok), conc
+            return run_behaviour(binary, b, conc, mount_ok, victims), conc
         except Skip as e:
             return {"skip": str(e)}, conc
-    outs = vlib.pmap(work, tasks, workers=WORKERS)
+    # phase 1: the uninterrupted pass of every scenario (also tells which segments the REAL selection takes)
+    t1 = order([(sid, b, seed_of(sid), None) for sid, base, crs in plan for b in base])
+    o1 = vlib.pmap(work, t1, workers=WORKERS)
+    refs = {t[0]: r for t, (r, c) in zip(t1, o1)}
+    # phase 2: the same scenarios interrupted after step k, restarted, pass repeated
+    t2 = []
+    for sid, base, crs in plan:
+        r = refs.get(sid)
+        for b in crs:
+            if r is None or "final" not in r:
+                continue
+            t2.append((sid, b, seed_of(sid), real_victims(r)))
+    t2 = order(t2)
+    o2 = vlib.pmap(work, t2, workers=WORKERS)
+    tasks = [(t[0], t[1], t[2]) for t in t1 + t2]
+    outs = o1 + o2
 
     ref = {}
     for (sid, b, seed), (res, conc) in zip(tasks, outs):
@@ -890,6 +949,7 @@ def run(chk):
             ref[sid] = res
     skipped, drift, fixed = {}, [], []
     n_done = 0
+    vio_seen = {}
     for (sid, b, seed), (res, conc) in zip(tasks, outs):
         if "skip" in res:
             skipped[res["skip"]] = skipped.get(res["skip"], 0) + 1
@@ -901,8 +961,10 @@ def run(chk):
         chk.count((b["kind"], sid, cut), nontrivial=nontrivial)
         fails = judge(b, res, ref.get(sid))
         for key, text in fails:
-            chk.violation(key, text, {"behaviour": b, "seed": seed, "concretisation": conc, "observed": res})
-        mm = model_mismatch(b, res)
+            vio_seen[key] = vio_seen.get(key, 0) + 1
+            if vio_seen[key] == 1:     # one report (and one replay file) per distinct finding
+                chk.violation(key, text, {"behaviour": b, "seed": seed, "concretisation": conc, "observed": res})
+        mm = None if res.get("own_steps") else model_mismatch(b, res)
         predicted_ok = all(b["ok"].values())
         if mm and not fails:
             (drift if predicted_ok else fixed).append({"behaviour": b, "diff": mm})
@@ -912,6 +974,7 @@ def run(chk):
                         "spec_final": b["final"], "real_final": res.get("final", res), "trace": res.get("trace")})
     chk.cov["behaviours_by_pass"] = {k: len([1 for t in tasks if t[1]["kind"] == k]) for k in ("time", "volume", "inode")}
     chk.cov["skipped"] = skipped
+    chk.cov["findings_by_key"] = vio_seen
     chk.cov["model_predicted_failure_not_reproduced"] = len(fixed)
     if n_done == 0:
         raise vlib.Infra("no behaviour could be replayed: %s" % skipped)
@@ -950,8 +1013,18 @@ def replay(chk, path):
     print("what: %s" % d.get("what"))
     print("behaviour: %s" % json.dumps(b))
     binary = vlib.build_driver()
+    ref, victims = None, None
     try:
-        res = run_behaviour(binary, b, conc, can_mount())
+        if b["crashes"]:
+            b0 = dict(b)
+            first = [st for st in b["steps"] if st["a"] == "start"][0]
+            b0["steps"], b0["crashes"] = [first], 0
+            ref = run_behaviour(binary, b0, conc, can_mount())
+            print("uninterrupted reference run, final: %s" % json.dumps(ref.get("final"), sort_keys=True))
+            if "final" in ref:
+                victims = real_victims(ref)
+                print("segments the real uninterrupted pass deleted: %s" % victims)
+        res = run_behaviour(binary, b, conc, can_mount(), victims)
     except Skip as e:
         print("cannot be replayed here: %s" % e)
         return 2
@@ -959,16 +1032,6 @@ def replay(chk, path):
     for stage in ("final", "after_repeat", "after_restart"):
         if stage in res:
             print("%s: %s" % (stage, json.dumps(res[stage], sort_keys=True)))
-    ref = None
-    if b["crashes"]:
-        b0 = dict(b)
-        first = [st for st in b["steps"] if st["a"] == "start"][0]
-        b0["steps"], b0["crashes"] = [first], 0
-        try:
-            ref = run_behaviour(binary, b0, conc, can_mount())
-            print("uninterrupted reference final: %s" % json.dumps(ref.get("final"), sort_keys=True))
-        except Skip:
-            ref = None
     fails = judge(b, res, ref)
     for k, t in fails:
         print("FINDING %s :: %s" % (k, t))
